@@ -59,6 +59,15 @@ pub struct LockRec {
 
 static REC: OnceLock<LockRec> = OnceLock::new();
 
+/// schedule perturbation (not a rendezvous): a thread whose name contains `.0`, holding nothing, sleeps `.2` ms before it
+/// requests a lock of a class containing `.1`.  Used to widen the window between the end of a session's interpreter loop
+/// and the moment its Fsm (with its timer) is dropped.
+static SLOW: Mutex<Option<(String, String, u64)>> = Mutex::new(None);
+
+pub fn set_slow(v: Option<(String, String, u64)>) {
+    *SLOW.lock().unwrap() = v;
+}
+
 thread_local! {
     static SEG: RefCell<Vec<(char, usize)>> = const { RefCell::new(Vec::new()) };
     static HELD: RefCell<Vec<usize>> = const { RefCell::new(Vec::new()) };
@@ -101,6 +110,14 @@ fn on_event(r: &LockRec, op: char, id: usize, class: &'static str) {
                 let e = st.entry(name.clone()).or_default();
                 e.wants = Some(id);
                 e.held = held.clone();
+            }
+            if held.is_empty() {
+                let slow = SLOW.lock().unwrap().clone();
+                if let Some((th, cl, ms)) = slow {
+                    if name.contains(&th) && class.contains(&cl) {
+                        std::thread::sleep(Duration::from_millis(ms));
+                    }
+                }
             }
             steer(r, &name, &held, id);
         }
